@@ -50,6 +50,8 @@ CHECKS.update({
             "4/C17", "All chains of the stated family on generated small modules; compile-terminated chains only in the thorough tier.", "pinned random source; C01-C06/C13-C16 for the reference"),
     "C18": ("differential monitor: tracked vs untracked module (bit comparison); recorded Metrics vs numpy statistics of tensors captured by an independent instrumented fx.Interpreter run on the captured graph and inputs; icontract postcondition on Metrics.from_tensor; analyse_module checked the same way",
             "4/C18", "Held on generated programs (one open known finding: rounding-level gradient differences at tensors with >= 3 consumers).", "deterministic re-execution of the captured GraphModule"),
+    "C19": ("differential monitor on tracked graphs: pruning helpers vs an independent networkx model of the documented removal sets (three-valued), lint + dangling-edge scan, reachability of consumers from producers, before/after snapshot of the input graph",
+            "4/C19", "Held on tracked graphs of generated programs x 3 helpers x 3 tolerances x random target sets.", "node.meta written by track_scales as established by C18"),
 })
 
 PENDING = {}
